@@ -361,17 +361,14 @@ theorem concatLoop_log (sub : Ctx) (n : Nat) (outs : List Outcome) (i : Nat) :
     (concatLoop sub n outs i).log = seqLog (i + 1) (concatLoop sub n outs i).attempts := by
   induction n generalizing outs i with
   | zero => simp [concatLoop]
-  | succ n ih => unfold concatLoop; simp [ih]
+  | succ n ih =>
+    unfold concatLoop
+    simp only []
+    cases (outcomeAt outs 0).fin <;> simp [ih]
 
-/-- what the pinned code does: every source is subscribed, also after one has failed -/
+/-- one source after the other until one fails (fix 808ed47) -/
 theorem concatLoop_attempts (sub : Ctx) (n : Nat) (outs : List Outcome) (i : Nat) :
-    (concatLoop sub n outs i).attempts = n := by
-  induction n generalizing outs i with
-  | zero => simp [concatLoop]
-  | succ n ih => unfold concatLoop; simp [ih]
-
-theorem concatLoop_vals (sub : Ctx) (n : Nat) (outs : List Outcome) (i : Nat) :
-    outVals (concatLoop sub n outs i).raw = valuesOf (outs.take (firstStop (failsAt outs) n)) := by
+    (concatLoop sub n outs i).attempts = firstStop (failsAt outs) n := by
   induction n generalizing outs i with
   | zero => simp [concatLoop, firstStop]
   | succ n ih =>
@@ -380,32 +377,31 @@ theorem concatLoop_vals (sub : Ctx) (n : Nat) (outs : List Outcome) (i : Nat) :
     cases h : (outcomeAt outs 0).fin with
     | complete =>
       rw [firstStop_succ_of_go _ (failsAt_zero_of_complete h), failsAt_tail]
-      simp [outVals_nexts_append, ih, valuesOf_take_succ]
+      simp [ih]
     | error e =>
       rw [firstStop_succ_of_stop _ (failsAt_zero_of_error h)]
-      simp [outVals_nexts_append, valuesOf_take_one]
+      simp
+
+theorem concatLoop_vals (sub : Ctx) (n : Nat) (outs : List Outcome) (i : Nat) :
+    outVals (concatLoop sub n outs i).raw = valuesOf (outs.take (concatLoop sub n outs i).attempts) := by
+  induction n generalizing outs i with
+  | zero => simp [concatLoop]
+  | succ n ih =>
+    unfold concatLoop
+    simp only []
+    cases (outcomeAt outs 0).fin with
+    | complete => simp [outVals_nexts_append, ih, valuesOf_take_succ]
+    | error e => simp [outVals_nexts_append, valuesOf_take_one]
 
 theorem concatLoop_term (sub : Ctx) (n : Nat) (outs : List Outcome) (i : Nat) :
-    outTerm (concatLoop sub n outs i).raw = some (termAfter outs (firstStop (failsAt outs) n)) := by
+    outTerm (concatLoop sub n outs i).raw = some (termAfter outs (concatLoop sub n outs i).attempts) := by
   induction n generalizing outs i with
-  | zero => simp [concatLoop, firstStop, termAfter]
+  | zero => simp [concatLoop, termAfter]
   | succ n ih =>
     unfold concatLoop
     simp only []
     cases h : (outcomeAt outs 0).fin with
-    | complete =>
-      rw [firstStop_succ_of_go _ (failsAt_zero_of_complete h), failsAt_tail]
-      simp [outTerm_nexts_append, ih, termAfter_tail _ _ h]
-    | error e =>
-      rw [firstStop_succ_of_stop _ (failsAt_zero_of_error h)]
-      simp [outTerm_nexts_append, termAfter_one_error h]
-
-theorem concat_noErrorBeforeLast {n : Nat} {outs : List Outcome} (h : Known.concatErrorBeforeLast n outs = false) :
-    ∀ j, j + 1 < n → failsAt outs j = false := by
-  intro j hj
-  unfold Known.concatErrorBeforeLast at h
-  rw [List.any_eq_false] at h
-  have := h j (by simp; omega)
-  simpa using this
+    | complete => simp [outTerm_nexts_append, ih, termAfter_tail _ _ h]
+    | error e => simp [outTerm_nexts_append, termAfter_one_error h]
 
 end Ro.Resub
